@@ -1,11 +1,13 @@
 from __future__ import annotations
 
+import functools
+import operator
 from numbers import Integral
 
 import numpy as np
 from tlz import sliding_window
 
-from dask_array._collection import concatenate
+from dask_array._collection import blockwise, concatenate
 from dask.utils import cached_cumsum, derived_from
 
 
@@ -45,11 +47,22 @@ def repeat(a, repeats, axis=None):
 
     out = []
     for slab in slabs:
-        chunks = list(slab.chunks)
-        assert len(chunks[axis]) == 1
-        chunks[axis] = (chunks[axis][0] * repeats,)
-        chunks = tuple(chunks)
-        result = slab.map_blocks(np.repeat, repeats, axis=axis, chunks=chunks, dtype=slab.dtype)
+        assert len(slab.chunks[axis]) == 1
+        # Every block grows ``repeats``-fold along ``axis`` and keeps its other
+        # extents: say so with a rule instead of recording the block sizes of
+        # all axes as they are now (a rewrite may move the other axes of the
+        # slab to another grid).
+        ind = tuple(range(slab.ndim))
+        result = blockwise(
+            np.repeat,
+            ind,
+            slab,
+            ind,
+            repeats=repeats,
+            axis=axis,
+            adjust_chunks={axis: functools.partial(operator.mul, repeats)},
+            dtype=slab.dtype,
+        )
         out.append(result)
 
     return concatenate(out, axis=axis)
